@@ -6,7 +6,9 @@ Import ListNotations.
 Open Scope Z_scope.
 
 (* after ANY sequence of add / remove / update(re-index) / clear / attribute changes / rejected
-   operations, starting from the empty table, the table invariant holds ... *)
+   operations -- single-object and BULK (AddMany / RemoveMany / UpdateMany, arbitrary batches: the same
+   object twice, stored objects, duplicate unique keys at any position, empty) --, starting from the empty
+   table, the table invariant holds ... *)
 Theorem C11_invariant_reachable : forall kinds ops, Inv kinds (fst (run kinds empty ops)).
 Proof. exact (fun kinds ops => run_inv kinds ops empty (empty_inv kinds)). Qed.
 Print Assumptions C11_invariant_reachable.
@@ -45,6 +47,23 @@ Proof.
 Qed.
 Print Assumptions C11_rejected_insert_noop.
 
+(* The BULK entry points (add_objects / add_objects_no_lock, in every table class) are loops over the
+   single insertion and stop at the first rejected element.  What the code does for a rejected batch is
+   PREFIX semantics, not all-or-nothing: the table is exactly the table after the accepted insertion of
+   the elements before the offending one; the offending element (rolled back) and all elements behind it
+   left no trace in the object set, in any index or in the reference lists. *)
+Theorem C11_rejected_batch_is_prefix : forall kinds ops os t',
+  let t := fst (run kinds empty ops) in
+  add_many kinds t os = (t', RRejected) ->
+  exists pre o post t1,
+    os = pre ++ o :: post /\ add_many kinds t pre = (t1, ROk) /\
+    (exists t1', add kinds t1 o = (t1', RRejected)) /\ same_table t' t1.
+Proof.
+  exact (fun kinds ops os t' =>
+           rejected_batch_is_prefix kinds os _ t' (run_inv kinds ops empty (empty_inv kinds))).
+Qed.
+Print Assumptions C11_rejected_batch_is_prefix.
+
 (* non-vacuity: a history on the real descriptor table's index set with a rejected insert *)
 Example C11_nonvacuous :
   let ops := [SetAttr 1 0%nat (VOne 7); SetAttr 1 1%nat (VOne 3); SetAttr 2 0%nat (VOne 7);
@@ -52,4 +71,15 @@ Example C11_nonvacuous :
   snd (run descriptors_kinds empty ops) = [ROk; ROk; ROk; ROk; ROk; RRejected] /\
   lookup (fst (run descriptors_kinds empty ops)) 1 (Some 3) = [1] /\
   objs (fst (run descriptors_kinds empty ops)) = [1].
+Proof. vm_compute. repeat split. Qed.
+
+(* non-vacuity of the batch theorem: object 2 duplicates the unique handle of object 1 in the middle of
+   a batch; 1 stays (prefix), 2 is rolled back, 3 is never looked at *)
+Example C11_batch_nonvacuous :
+  let ops := [SetAttr 1 0%nat (VOne 7); SetAttr 2 0%nat (VOne 7); SetAttr 3 0%nat (VOne 8)] in
+  let t := fst (run descriptors_kinds empty ops) in
+  snd (add_many descriptors_kinds t [1; 2; 3]) = RRejected /\
+  objs (fst (add_many descriptors_kinds t [1; 2; 3])) = [1] /\
+  lookup (fst (add_many descriptors_kinds t [1; 2; 3])) 0 (Some 7) = [1] /\
+  lookup (fst (add_many descriptors_kinds t [1; 2; 3])) 0 (Some 8) = [].
 Proof. vm_compute. repeat split. Qed.
